@@ -19,6 +19,7 @@ class Scenario:
         self.ws = os.path.join(d, "ws")
         self.dest_kind = dest_kind or rng.choice(["remote", "remote", "local"])
         self.with_obj_names = rng.random() < 0.3
+        self.has_empty_tree = False
         pool = [gen.small_content(rng) for _ in range(rng.randrange(1, 5))]
         if rng.random() < 0.4:
             pool.append(gen.mined_00(rng))
@@ -51,6 +52,16 @@ class Scenario:
             self.trees.append({"oid": obj.hash_info.value, "listing": listing, "hi": obj.hash_info})
             raw = canonical_dir_bytes(listing)
             self.blobs[obj.hash_info.value] = raw
+        if rng.random() < 0.12 and not wide:
+            # a directory that holds nothing: its object is the empty listing
+            p = os.path.join(self.ws, "t-empty")
+            os.makedirs(p, exist_ok=True)
+            _st, _m, obj, r = env.stage_and_transfer(self.src, p)
+            if r.failed:
+                raise env.HarnessError("population transfer failed")
+            self.trees.append({"oid": obj.hash_info.value, "listing": {}, "hi": obj.hash_info})
+            self.blobs[obj.hash_info.value] = canonical_dir_bytes({})
+            self.has_empty_tree = True
         self.single_files = []
         if extra_files:
             for i in range(rng.randrange(0, 3)):
